@@ -3,6 +3,7 @@ CONSTANTS
   N = 4
   LimR = 2
   LimD = 1
+  TB = 0
   MoveOnLast = TRUE
 VIEW View
 INVARIANT Refines
